@@ -232,6 +232,7 @@ class TFLiteSupportedOperators:
         for op_type in TFLiteSupportedOperators.convolution_like_ops:
             self.specific_constraints[op_type].append(TFLiteSupportedOperators.constraint_dilated_height_range)
             self.specific_constraints[op_type].append(TFLiteSupportedOperators.constraint_dilated_product_range)
+            self.specific_constraints[op_type].append(TFLiteSupportedOperators.constraint_weights_symmetric)
             self.specific_constraints[op_type].append(TFLiteSupportedOperators.constraint_weights_type)
             self.specific_constraints[op_type].append(TFLiteSupportedOperators.constraint_weights_const)
             self.specific_constraints[op_type].append(TFLiteSupportedOperators.constraint_weights_limit)
@@ -479,6 +480,16 @@ class TFLiteSupportedOperators:
         dilated_product_min, dilated_product_max = cls.dilated_product_range
         valid = dilated_product_min <= product <= dilated_product_max
         return valid, f"Op has product of dilated kernel width and height as: {product}"
+
+    @staticmethod
+    def constraint_weights_symmetric(op):
+        "Weight tensor zero points must be 0 when IFM is int8 or int16 (unless --force-symmetric-int-weights is used)"
+        # Must match detect_asymmetric_weights() in the graph optimiser, which places these operators on the CPU
+        weights = op.weights
+        valid = True
+        if op.ifm.dtype in (DataType.int8, DataType.int16):
+            valid = bool(np.all(weights.quantization.zero_point == 0))
+        return valid, f"Tensor '{weights.name}' has asymmetric quantization (non-zero zero point)"
 
     @staticmethod
     def constraint_weights_type(op):
